@@ -46,9 +46,13 @@ def _alarm(signum, frame):
 
 
 def bounded_infer(graph, seconds=5):
-    """wall-clock bounded call of infer_types (termination is observed, not assumed)"""
+    """bounded call of infer_types (termination is observed, not assumed).  The bound is on the *CPU time of this process*
+    (ITIMER_PROF), so that a loaded machine cannot turn a slow call into a reported hang; a wall-clock alarm twenty times as
+    long catches a call that blocks without computing."""
     old = signal.signal(signal.SIGALRM, _alarm)
-    signal.alarm(seconds)
+    old_prof = signal.signal(signal.SIGPROF, _alarm)
+    signal.alarm(int(seconds * 20))
+    signal.setitimer(signal.ITIMER_PROF, float(seconds))
     try:
         with quiet():
             graph.infer_types()
@@ -58,7 +62,9 @@ def bounded_infer(graph, seconds=5):
     except Exception as e:  # noqa
         return err_name(e)
     finally:
+        signal.setitimer(signal.ITIMER_PROF, 0)
         signal.alarm(0)
+        signal.signal(signal.SIGPROF, old_prof)
         signal.signal(signal.SIGALRM, old)
 
 
@@ -118,7 +124,7 @@ def check_one(ctx, g, label, cases, obs, reqs, edit=None, seconds=5):
     try:
         err = bounded_infer(graph, seconds)
     except Hang:
-        ctx.violate(case, "infer_types did not terminate within %d s" % seconds, {**sig, "what": "hang"})
+        ctx.violate(case, "infer_types did not terminate within %d s of CPU time" % seconds, {**sig, "what": "hang"})
         return
     ctx.count("raised" if err else "inferred")
     if edit is not None and err is not None and edit[0].get("must_succeed"):
@@ -158,9 +164,9 @@ def check_one(ctx, g, label, cases, obs, reqs, edit=None, seconds=5):
                         observed=undefined)
             return
         try:
-            err2 = bounded_infer(graph)
+            err2 = bounded_infer(graph, seconds)
         except Hang:
-            ctx.violate(case, "second infer_types did not terminate", {**sig, "what": "hang"})
+            ctx.violate(case, "second infer_types did not terminate within %d s of CPU time" % seconds, {**sig, "what": "hang"})
             return
         types2 = types_snapshot(graph)
         if err2 is not None or types2 != types1 or frame_snapshot(graph) != after:
